@@ -33,7 +33,9 @@ RULE = (
     "file, external elsewhere, shared object under two names, string below threshold, zero-size} over 25 "
     "dtypes in main graph / If branches / GRAPHS attribute / nested If, crossed with backend, threshold, "
     "alignment, align_threshold, shard limit, workers, in-flight budget, callback, destination naming, "
-    "optional re-save of the loaded model (only after a clean first round trip); non-trivial = save returned, the model was reloaded and at "
+    "optional re-save of the loaded model (only after a clean first round trip; safetensors -> safetensors "
+    "re-saves mostly steered so that both saves give the same >= 2 shard file names while a tensor must change "
+    "file - limit or threshold moved, boundary earlier or later); non-trivial = save returned, the model was reloaded and at "
     "least one initializer was compared through an external byte range; distinct by hash of (spec, cfg)"
 )
 ASSUMPTIONS = [
@@ -86,6 +88,10 @@ def plan(tier: str) -> dict:
             "parallel_writer_saves": 80 * f,
             "resaves_returned": 50 * f,
             "backend_st_saves_returned": 90 * f,
+            # in-place saves observed to move tensors between data files whose names were kept
+            "inplace_saves_moving_tensors_between_kept_data_files": 8 * f,
+            "inplace_saves_moving_a_tensor_to_a_later_kept_file": 2 * f,
+            "inplace_saves_moving_a_tensor_to_an_earlier_kept_file": 3 * f,
         },
         "min_nontrivial": 220 * f,
         "params": {},
@@ -462,6 +468,28 @@ def _do_step(step: Step, model, expected: list[dict], model_path: str, base_abs:
         viols.extend(problems)
         entries.append({"rec": rec, "loc": loc, "off": t.offset, "len": t.length})
 
+    # ---- observed shape of an in-place save: did tensors change between data files that both existed
+    # before the call, still backed the model and exist (rewritten) afterwards?  (observation only) -----
+    kept = {os.path.normpath(os.path.relpath(p, base_abs)) for p in files_before
+            if p in files_now and os.path.normpath(p) in rewritten}
+    later = earlier = 0
+    for key, (loc0, _, _) in prev_pos.items():
+        value = got.get(key)
+        t = value.const_value if value is not None else None
+        if isinstance(t, ir.ExternalTensor):
+            loc1 = os.path.normpath(os.fspath(t.location))
+            if loc1 != loc0 and loc0 in kept and loc1 in kept:
+                later += loc1 > loc0
+                earlier += loc1 < loc0
+    if later or earlier:
+        c["inplace_saves_moving_tensors_between_kept_data_files"] += 1
+        c["inplace_tensors_moved_to_a_later_kept_file"] += later
+        c["inplace_tensors_moved_to_an_earlier_kept_file"] += earlier
+        if later:
+            c["inplace_saves_moving_a_tensor_to_a_later_kept_file"] += 1
+        if earlier:
+            c["inplace_saves_moving_a_tensor_to_an_earlier_kept_file"] += 1
+
     _check_layout(step, opts, entries, all_locs, base_abs, case_dir, model_path, files_before, c, viols)
     return m2
 
@@ -765,6 +793,11 @@ def _gen_case(rng, tier: str) -> tuple[dict, dict]:
     spec = gen.gen_model_spec(rng, backend, tier)
     cfg = gen.gen_config(rng, spec, backend)
     gen.normalise(spec, cfg)
+    # most safetensors -> safetensors re-saves are steered to the in-place shape "same shard file
+    # names, another distribution of the tensors over them" (random limits almost never meet it)
+    if cfg.get("resave") and rng.random() < 0.8 and gen.steer_inplace_repartition(rng, spec, cfg):
+        cfg["steered"] = "inplace_repartition"
+        gen.normalise(spec, cfg)
     return spec, cfg
 
 
@@ -826,6 +859,8 @@ def run(ctx) -> None:
         spec, cfg = _gen_case(rng, ctx.tier)
         viols, facts = run_case(copy.deepcopy(spec), copy.deepcopy(cfg), root, ctx.counters)
         ctx.count(f"cases_backend_{cfg['backend']}")
+        if cfg.get("steered"):
+            ctx.count(f"cases_steered_to_{cfg['steered']}")
         ctx.evaluation(stable_hash([spec, cfg]), nontrivial=facts["nontrivial"])
         ctx.sample({"cfg": _brief_cfg(cfg), "inits": _brief_inits(spec)[:6], "n_inits": len(spec["inits"])})
         seen = set()
